@@ -6,7 +6,9 @@ register('C04', 'exploration',
          "SCOPED: seeded search over (document, delivery channel, delivery plan, sequence of entry points, source "
          "reuse): every entry point on every channel must equal the eager bytes reference computed on a pristine fork, "
          "and the reference itself must satisfy sentence 1 (is_valid/iter_errors/validate/strict decode/lax decode "
-         "agree; strict raises the first lax error). CLI exit-status arithmetic is not examined. Evidence, not proof.",
+         "agree; strict raises the first lax error; skip-mode data of valid documents equals strict data; the validate "
+         "command, run in process, exits with OS-visible status 0 exactly when the document is valid - including a "
+         "256-error document). Agreement across validation OPTIONS is not examined. Evidence, not proof.",
          TB + "; documents come from the pool families and the repository corpus; ElementTree channels only for "
          "documents without prefix-dependent values",
          "deterministic simulation: simulated streams/files/peer with seeded delivery plans; pristine-fork differential oracle",
